@@ -433,3 +433,97 @@ Proof.
         destruct Hm as (_ & _ & Hall). rewrite Hpv' in Hall. apply Forall_cons_iff in Hall as [(c0 & t' & Hc0 & _) _]. eauto.
 Qed.
 End split_step.
+
+Section split_step2.
+Variable D : tenv.
+Variable F : list fundef.
+Variable teq : sty -> sty -> Prop.
+Hypothesis Hteq : teq_laws D teq.
+Hypothesis HF : funs_typed D F teq.
+
+(* `<x,y> <- split from; k` *)
+Lemma split_case Δ c self n a x y from k next c' :
+  cfg_typed D F teq Δ c -> SplitCfg c -> ns_ok c ->
+  procs c !! self = Some (Proc [n] (FSplit x y from k) next) -> chan n = Some a ->
+  step Async D F c (Run self) = SStep c' ->
+  exists ls, sax_stepS01 F (α c) ls (α c') /\ labels c' = labels c ++ ls.
+Proof.
+  intros Hc Hsc Hns Hp Hn Hstep.
+  apply step_run_async_inv in Hstep as (p0 & Hp0 & Hstep). rewrite Hp in Hp0. simplify_eq.
+  destruct (ct_procs _ _ _ _ _ Hc self _ Hp) as (s & rs & _ & _ & Hty). cbn in Hty.
+  inversion Hty; subst.
+  match goal with H : client_ty _ _ _ _ from _ |- _ => pose proof H as Hcl end.
+  destruct (chan_ty_init teq Δ from _ Hcl) as [b Hb]. destruct Hcl as (Hfs & _).
+  cbn in Hstep. rewrite Hfs in Hstep. cbn in Hstep.
+  destruct Hstep as (e & He & ->). cbn in He. simplify_eq.
+  exists []. split; [right|by rewrite labels_effect].
+  eapply refine_split; try done.
+  intros m' Hm'. eapply (fresh_all D F teq Δ c self _ m' Hc Hsc Hns Hp); [left; cbn; eauto|done].
+Qed.
+
+(* a process with two providers *)
+Lemma two_case Δ c self n1 n2 body next c' :
+  cfg_typed D F teq Δ c -> Topo c -> ns_ok c -> SplitCfg c -> DropUnref c ->
+  procs c !! self = Some (Proc [n1; n2] body next) ->
+  step Async D F c (Run self) = SStep c' ->
+  exists ls, sax_stepS01 F (α c) ls (α c') /\ labels c' = labels c ++ ls.
+Proof.
+  intros Hc Ht Hns Hsc Hdu Hp Hstep. set (p := Proc [n1; n2] body next) in *.
+  destruct (ct_procs _ _ _ _ _ Hc self p Hp) as (s & rs & _ & Hprov & Hty). cbn in Hprov, Hty.
+  apply Forall_cons_iff in Hprov as [(c1 & ? & E1 & _) Hprov]. apply Forall_cons_iff in Hprov as [(c2 & ? & E2 & _) _].
+  pose proof Hstep as Hstep0.
+  apply step_run_async_inv in Hstep as (p0 & Hp0 & Hstep). assert (p0 = p) by congruence. subst p0.
+  destruct (is_fwd body) eqn:Hfw.
+  - (* the pending split *)
+    destruct body; try done. destruct droppable.
+    { exfalso. destruct (Hdu self p Hp eq_refl) as [Hlen _]. cbn in Hlen. done. }
+    destruct (action_of Async D p) as [| |k m|k| |k pv|w] eqn:Hact; try done.
+    + unfold p in Hact. cbn in Hact. repeat case_match; done.
+    + unfold p in Hact. cbn in Hact. repeat case_match; done.
+    + (* posts the request with its two providers: the same object *)
+      assert (is_self to = true /\ chan from = Some k /\ m = Msg RFWD zero_name zero_name [n1; n2] "") as (Hto & Hfrom & ->).
+      { unfold p in Hact. cbn in Hact. destruct (is_self to); [|done]. cbn in Hact.
+        destruct (fwd_polarity D from) as [[| |]|?|?]; try done; destruct (chan from); by simplify_eq. }
+      destruct Hstep as (st & Hk & Hb & ->). exists []. split; [|unfold labels; cbn; by rewrite app_nil_r].
+      left. split; [done|]. symmetry. eapply refine_send; [exact Hp|exact Hk|exact Hb|].
+      unfold proc_obj, pobj, msg_obj. cbn. by rewrite E1, E2, Hfrom.
+    + (* receives a positive message: it is copied *)
+      assert (is_self to = true /\ chan from = Some k) as (Hto & Hfrom).
+      { unfold p in Hact. cbn in Hact. destruct (is_self to); [|done]. cbn in Hact.
+        destruct (fwd_polarity D from) as [[| |]|?|?]; try done; destruct (chan from); by simplify_eq. }
+      destruct Hstep as (st & Hk & Hst).
+      destruct (ch_buf st) as [m|] eqn:Hb.
+      2:{ exfalso. pose proof (topo_closed_unused Async D c eq_refl Ht self p k st Hp (or_introl Hact) Hk). congruence. }
+      destruct Hst as (e & He & ->).
+      pose proof (tres_typed_topo D F teq Hteq HF Δ c Hc Ht self p k st Hp Hact Hk) as Hres. rewrite Hb in Hres.
+      exists []. split; [right|by rewrite labels_effect, labels_put, (on_message_out _ _ _ _ He)].
+      assert (proc_obj self p = [SSplit c1 c2 k]) as Hpo by (unfold proc_obj, pobj, p; cbn; by rewrite E1, E2, Hfrom).
+      unfold on_message in He. cbn in He. rewrite !andb_false_r in He.
+      destruct (m_rule m) eqn:Hrule; try done.
+      * simplify_eq. unfold no_eff, set_body. cbn [pr_provs pr_next].
+        eapply (refine_copy F c self (Proc [n1; n2] (FFwd to from false) next) k st m n1 n2 c1 c2 (FSend to (m_c1 m) (m_c2 m))); try done.
+        -- rewrite Hpo. unfold msg_obj. rewrite Hrule. cbn. by rewrite Hto.
+        -- intros m' Hm'. eapply (fresh_all D F teq Δ c self (Proc [n1; n2] (FFwd to from false) next) m' Hc Hsc Hns Hp); [by right|done].
+      * simplify_eq. unfold no_eff, set_body. cbn [pr_provs pr_next].
+        eapply (refine_copy F c self (Proc [n1; n2] (FFwd to from false) next) k st m n1 n2 c1 c2 (FClose to)); try done.
+        -- rewrite Hpo. unfold msg_obj. rewrite Hrule. cbn. by rewrite Hto.
+        -- intros m' Hm'. eapply (fresh_all D F teq Δ c self (Proc [n1; n2] (FFwd to from false) next) m' Hc Hsc Hns Hp); [by right|done].
+      * simplify_eq. unfold no_eff, set_body. cbn [pr_provs pr_next].
+        eapply (refine_copy F c self (Proc [n1; n2] (FFwd to from false) next) k st m n1 n2 c1 c2 (FCast to (m_c1 m))); try done.
+        -- rewrite Hpo. unfold msg_obj. rewrite Hrule. cbn. by rewrite Hto.
+        -- intros m' Hm'. eapply (fresh_all D F teq Δ c self (Proc [n1; n2] (FFwd to from false) next) m' Hc Hsc Hns Hp); [by right|done].
+      * simplify_eq. unfold no_eff, set_body. cbn [pr_provs pr_next].
+        eapply (refine_copy F c self (Proc [n1; n2] (FFwd to from false) next) k st m n1 n2 c1 c2 (FSel to (m_label m) (m_c1 m))); try done.
+        -- rewrite Hpo. unfold msg_obj. rewrite Hrule. cbn. by rewrite Hto.
+        -- intros m' Hm'. eapply (fresh_all D F teq Δ c self (Proc [n1; n2] (FFwd to from false) next) m' Hc Hsc Hns Hp); [by right|done].
+      * exfalso. destruct (Hres eq_refl) as [_ Hnf]. cbn in Hnf. done.
+  - (* it duplicates itself: administrative *)
+    pose proof (multi_action D n1 n2 body next Hfw) as Hma. fold p in Hma.
+    destruct (action_of Async D p) as [| |k m|k| |k pv|w] eqn:Hact; try done.
+    destruct Hstep as (e & He & ->).
+    destruct (dup_objs self n1 n2 c1 c2 body next E1 E2 Hfw) as (e' & He' & _ & Hout & _).
+    fold p in He'. assert (e' = e) by congruence. subst e'.
+    exists []. split; [left; split; [done|]|by rewrite labels_effect, Hout].
+    symmetry. by eapply refine_dup.
+Qed.
+End split_step2.
